@@ -77,7 +77,7 @@ def main():
         try:
             for p in props:
                 t0 = time.time()
-                rc, o = sh("%s ./check %s --tier %s" % (env, p, tier), cwd="/verif", timeout=7200)
+                rc, o = sh("%s ./check %s --tier %s" % (env, p, tier), cwd=os.path.dirname(os.path.dirname(os.path.abspath(__file__))), timeout=7200)
                 viol = [l for l in o.splitlines() if l.startswith("VIOLATION") or l.startswith("UNDECIDED") or l.startswith("  failed obligation") or l.startswith("  native replay")]
                 results[p] = {"exit": rc, "seconds": round(time.time() - t0), "lines": viol[:12], "summary": o.strip().splitlines()[-1] if o.strip() else "",
                               "cmd": "%s ./check %s --tier %s" % (env, p, tier)}
